@@ -1742,9 +1742,11 @@ class Alias(ObjectAliasMixin):
                 resolved.resolve_target()
             except CyclicAliasError as error:
                 raise CyclicAliasError([self.target_path, *error.chain]) from error
-        self._target = resolved
+        # Register on the (final) target first: it walks the rest of the chain and raises when a link
+        # cannot be resolved, in which case this alias must stay unresolved too.
         if self.parent is not None:
-            self._target.aliases[self.path] = self  # type: ignore[union-attr]
+            resolved.aliases[self.path] = self
+        self._target = resolved
 
     def _update_target_aliases(self) -> None:
         with suppress(AttributeError, AliasResolutionError, CyclicAliasError):
